@@ -44,7 +44,7 @@ func ff(x float64) string { return strconv.FormatFloat(x, 'g', -1, 64) }
 func genCLI(t *rapid.T) cliCase {
 	var c cliCase
 	c.Cmd = cliCmds[rapid.IntRange(0, 1<<20).Draw(t, "cmd")%len(cliCmds)]
-	c.Seed = rapid.Int64Range(0, 1<<40).Draw(t, "seed")
+	c.Seed = genSeed(t)
 	alphabet := rapid.SampledFrom([]string{"nt", "aa"}).Draw(t, "alphabet")
 	n := size(t, "rows", 1, 6)
 	l := size(t, "L", 1, 14)
@@ -154,7 +154,7 @@ func runCLI(dir string, c cliCase) (cliRun, []string) {
 	in := filepath.Join(work, "in.fa")
 	os.WriteFile(in, []byte(cli.Fasta(c.Ali.Rows)), 0o644)
 	words := strings.Fields(c.Cmd)
-	args := append(words, "-i", in, "--seed", strconv.FormatInt(c.Seed, 10))
+	args := append(words, "-i", in, "--seed="+strconv.FormatInt(c.Seed, 10))
 	if c.Alphabet != "" {
 		args = append(args, "--alphabet", c.Alphabet)
 	}
@@ -266,6 +266,7 @@ func checkCLI(dir string) func(c cliCase) (pbt.Outcome, error) {
 		r1, args := runCLI(dir, c)
 		r2, _ := runCLI(dir, c)
 		o.Class("cmd=%s", c.Cmd)
+		o.Class(seedClass(c.Seed))
 		if r1.res.TimedOut || r2.res.TimedOut {
 			return o, fmt.Errorf("goalign %v did not return", args)
 		}
